@@ -469,6 +469,61 @@ func cmdConc(prop string, args []string) int {
 			}
 			stats["load.rounds"]++
 		}
+		// callers that give up - a cancelled or expired request context, before or while the locks
+		// are being taken - must leave nothing locked: an unrelated request afterwards completes
+		mkBatch := func(keys []int, root byte) *Op {
+			op := &Op{Kind: KAttests, Client: "client1", IP: "10.0.0.1"}
+			for _, k := range keys {
+				a := fx.Accounts[k]
+				op.Addrs = append(op.Addrs, Addr{Name: a.Path()})
+				op.Atts = append(op.Atts, AttData{Dom: mkDomain(domAttester, 0), BBR: fill32(root), Src: &Checkpoint{epoch - 1, fill32(0)}, Tgt: &Checkpoint{epoch, fill32(root)}})
+			}
+			return op
+		}
+		finishes := func(c context.Context, op *Op, limit time.Duration) bool {
+			done := make(chan struct{})
+			go func() {
+				defer close(done)
+				_, _ = inst.ExecCtx(c, op)
+			}()
+			select {
+			case <-done:
+				return true
+			case <-time.After(limit):
+				return false
+			}
+		}
+		for r := 0; r < 8; r++ {
+			epoch += 2
+			var c context.Context
+			var cancel context.CancelFunc
+			what := ""
+			switch r % 3 {
+			case 0:
+				c, cancel = context.WithCancel(ctx)
+				cancel()
+				what = "an already cancelled caller"
+			case 1:
+				c, cancel = context.WithTimeout(ctx, time.Millisecond)
+				time.Sleep(3 * time.Millisecond)
+				what = "a caller whose deadline has passed"
+			default:
+				// the deadline expires while another batch holds one of the keys
+				c, cancel = context.WithTimeout(ctx, 2*time.Millisecond)
+				go func() { _, _ = inst.ExecCtx(ctx, mkBatch([]int{0, 1, 2, 3, 4}, byte(40+r))) }()
+				what = "a caller whose deadline expires while it waits"
+			}
+			if !finishes(c, mkBatch([]int{0, 2}, byte(60+r)), 15*time.Second) {
+				monFail = append(monFail, fmt.Sprintf("the batch of %s did not return within the watchdog", what))
+			}
+			cancel()
+			epoch += 2
+			if !finishes(ctx, mkBatch([]int{3}, byte(80+r)), 15*time.Second) {
+				monFail = append(monFail, fmt.Sprintf("after the batch of %s, an unrelated request on another key never completed (a lock was left held)", what))
+				break
+			}
+			stats["giveup.rounds"]++
+		}
 	}
 
 	var b strings.Builder
